@@ -248,6 +248,8 @@ class UnitGen:
                     sha256=hashlib.sha256(src.encode()).hexdigest(), rewrites=[], tags=fd.tags,
                     src_text=src, origin=fd.origin, dropped_attributes=[
                         l.strip() for l in fp.attrs.split('\n') if l.strip().startswith('#[')])
+        info['contract_sha'] = hashlib.sha256('\n'.join(
+            l.strip() for sec in fd.sections if sec.kind in ('requires', 'ensures') for l in sec.lines if l.strip()).encode()).hexdigest()[:16]
         g.fns[fid] = info
         text = src
         rws = []
